@@ -14,26 +14,44 @@ open CprocVerif.LowerArith CprocVerif.LowerMach CprocVerif.LowerMem
 
 /-! ## Declared types are the variable types -/
 
-theorem wt_declTys (vtys : List CSem.Ty) (ret : CSem.Ty) (st : Stmt) : ∀ (lb lc : Bool) (nd nd' : Nat),
-    Stmt.wt vtys ret lb lc nd st = some nd' →
-    ∀ (k : Nat) (t : CSem.Ty), (declTys st)[k]? = some t → vtys[nd + k]? = some t := by
+theorem wt_declTys (vtys : List CSem.Ty) (ret : CSem.Ty) (cnts : List Nat) (st : Stmt) :
+    ∀ (lb lc : Bool) (nd nd' : Nat),
+    Stmt.wt vtys ret lb lc nd st = some nd' → arrsOK cnts st = true → declsOK cnts st = true →
+    ∀ (k : Nat) (t : CSem.Ty) (n : Nat), (declTys st)[k]? = some (t, n) →
+      vtys[nd + k]? = some t ∧ cnts[nd + k]? = some n ∧ 1 ≤ n := by
   induction st with
   | decl i t init =>
-    intro lb lc nd nd' h k t' hk
+    intro lb lc nd nd' h _ hd k t' n hk
     simp only [Stmt.wt] at h
+    simp only [declsOK, decide_eq_true_eq] at hd
     split at h
     · rename_i hw
       simp only [declTys] at hk
       cases k with
       | zero =>
-        simp only [List.getElem?_cons_zero, Option.some.injEq] at hk
-        subst hk
-        rw [Nat.add_zero, ← hw.1]; exact hw.2.1
+        simp only [List.getElem?_cons_zero, Option.some.injEq, Prod.mk.injEq] at hk
+        obtain ⟨rfl, rfl⟩ := hk
+        rw [Nat.add_zero, ← hw.1]; exact ⟨hw.2.1, hd, Nat.le_refl _⟩
+      | succ k => simp at hk
+    · cases h
+  | adecl i t n xb =>
+    intro lb lc nd nd' h ha _ k t' n' hk
+    simp only [Stmt.wt] at h
+    simp only [arrsOK, Bool.and_eq_true, decide_eq_true_eq] at ha
+    split at h
+    · rename_i hw
+      simp only [declTys] at hk
+      cases k with
+      | zero =>
+        simp only [List.getElem?_cons_zero, Option.some.injEq, Prod.mk.injEq] at hk
+        obtain ⟨rfl, rfl⟩ := hk
+        rw [Nat.add_zero, ← hw.1]; exact ⟨hw.2, ha.1.2, ha.1.1⟩
       | succ k => simp at hk
     · cases h
   | seq a b iha ihb =>
-    intro lb lc nd nd' h k t hk
+    intro lb lc nd nd' h ha hd k t n hk
     simp only [Stmt.wt] at h
+    simp only [arrsOK, declsOK, Bool.and_eq_true] at ha hd
     split at h
     · cases h
     · simp only [Option.bind_eq_some_iff] at h
@@ -42,21 +60,23 @@ theorem wt_declTys (vtys : List CSem.Ty) (ret : CSem.Ty) (st : Stmt) : ∀ (lb l
       simp only [declTys] at hk
       by_cases hka : k < (declTys a).length
       · rw [List.getElem?_append_left hka] at hk
-        exact iha lb lc nd n1 h1 k t hk
+        exact iha lb lc nd n1 h1 ha.1 hd.1 k t n hk
       · rw [List.getElem?_append_right (by omega)] at hk
-        have := ihb lb lc n1 nd' h2 _ t hk
+        have := ihb lb lc n1 nd' h2 ha.2 hd.2 _ t n hk
         rw [hc] at this
         have e : nd + (declTys a).length + (k - (declTys a).length) = nd + k := by omega
         rw [e] at this; exact this
   | ite e a iha =>
-    intro lb lc nd nd' h k t hk
+    intro lb lc nd nd' h ha hd k t n hk
     simp only [Stmt.wt] at h
+    simp only [arrsOK, declsOK] at ha hd
     split at h
-    · exact iha lb lc nd nd' h k t hk
+    · exact iha lb lc nd nd' h ha hd k t n hk
     · cases h
   | itee e a b iha ihb =>
-    intro lb lc nd nd' h k t hk
+    intro lb lc nd nd' h ha hd k t n hk
     simp only [Stmt.wt] at h
+    simp only [arrsOK, declsOK, Bool.and_eq_true] at ha hd
     split at h
     · simp only [Option.bind_eq_some_iff] at h
       obtain ⟨n1, h1, h2⟩ := h
@@ -64,30 +84,33 @@ theorem wt_declTys (vtys : List CSem.Ty) (ret : CSem.Ty) (st : Stmt) : ∀ (lb l
       simp only [declTys] at hk
       by_cases hka : k < (declTys a).length
       · rw [List.getElem?_append_left hka] at hk
-        exact iha lb lc nd n1 h1 k t hk
+        exact iha lb lc nd n1 h1 ha.1 hd.1 k t n hk
       · rw [List.getElem?_append_right (by omega)] at hk
-        have := ihb lb lc n1 nd' h2 _ t hk
+        have := ihb lb lc n1 nd' h2 ha.2 hd.2 _ t n hk
         rw [hc] at this
         have e : nd + (declTys a).length + (k - (declTys a).length) = nd + k := by omega
         rw [e] at this; exact this
     · cases h
   | while_ e b ihb =>
-    intro lb lc nd nd' h k t hk
+    intro lb lc nd nd' h ha hd k t n hk
     simp only [Stmt.wt] at h
+    simp only [arrsOK, declsOK] at ha hd
     split at h
-    · exact ihb true true nd nd' h k t hk
+    · exact ihb true true nd nd' h ha hd k t n hk
     · cases h
   | dowhile b e ihb =>
-    intro lb lc nd nd' h k t hk
+    intro lb lc nd nd' h ha hd k t n hk
     simp only [Stmt.wt] at h
+    simp only [arrsOK, declsOK] at ha hd
     split at h
     · simp only [Option.bind_eq_some_iff] at h
       obtain ⟨n1, h1, h2⟩ := h
-      exact ihb true true nd n1 h1 k t hk
+      exact ihb true true nd n1 h1 ha hd k t n hk
     · cases h
   | for_ e step b ihs ihb =>
-    intro lb lc nd nd' h k t hk
+    intro lb lc nd nd' h ha hd k t n hk
     simp only [Stmt.wt] at h
+    simp only [arrsOK, declsOK, Bool.and_eq_true] at ha hd
     split at h
     · rename_i hc
       simp only [Option.bind_eq_some_iff, Option.some.injEq] at h
@@ -95,23 +118,26 @@ theorem wt_declTys (vtys : List CSem.Ty) (ret : CSem.Ty) (st : Stmt) : ∀ (lb l
       have hsd : declTys step = [] := by
         cases step <;> simp [Stmt.isSimple] at hc <;> rfl
       simp only [declTys, hsd, List.append_nil] at hk
-      exact ihb true true nd n1 h1 k t hk
+      exact ihb true true nd n1 h1 ha.2 hd.2 k t n hk
     · cases h
-  | skip => intro lb lc nd nd' h k t hk; simp [declTys] at hk
-  | assign i t e => intro lb lc nd nd' h k t hk; simp [declTys] at hk
-  | incdec i t inc => intro lb lc nd nd' h k t hk; simp [declTys] at hk
-  | expr e => intro lb lc nd nd' h k t hk; simp [declTys] at hk
-  | ret e => intro lb lc nd nd' h k t hk; simp [declTys] at hk
-  | break_ => intro lb lc nd nd' h k t hk; simp [declTys] at hk
-  | continue_ => intro lb lc nd nd' h k t hk; simp [declTys] at hk
-  | case_ u => intro lb lc nd nd' h k t hk; simp [declTys] at hk
-  | default_ => intro lb lc nd nd' h k t hk; simp [declTys] at hk
-  | call dst rt fn args => intro lb lc nd nd' h k t hk; simp [declTys] at hk
+  | skip => intro lb lc nd nd' h _ _ k t n hk; simp [declTys] at hk
+  | assign i t e => intro lb lc nd nd' h _ _ k t n hk; simp [declTys] at hk
+  | incdec i t inc => intro lb lc nd nd' h _ _ k t n hk; simp [declTys] at hk
+  | expr e => intro lb lc nd nd' h _ _ k t n hk; simp [declTys] at hk
+  | ret e => intro lb lc nd nd' h _ _ k t n hk; simp [declTys] at hk
+  | break_ => intro lb lc nd nd' h _ _ k t n hk; simp [declTys] at hk
+  | continue_ => intro lb lc nd nd' h _ _ k t n hk; simp [declTys] at hk
+  | case_ u => intro lb lc nd nd' h _ _ k t n hk; simp [declTys] at hk
+  | default_ => intro lb lc nd nd' h _ _ k t n hk; simp [declTys] at hk
+  | call dst rt fn args => intro lb lc nd nd' h _ _ k t n hk; simp [declTys] at hk
+  | aload d dt a t n xb x => intro lb lc nd nd' h _ _ k t n hk; simp [declTys] at hk
+  | astore a t n xb x v => intro lb lc nd nd' h _ _ k t n hk; simp [declTys] at hk
   | switch_ e b ihb =>
-    intro lb lc nd nd' h k t hk
+    intro lb lc nd nd' h ha hd k t n hk
     simp only [Stmt.wt] at h
+    simp only [arrsOK, declsOK] at ha hd
     split at h
-    · exact ihb true lc nd nd' h k t hk
+    · exact ihb true lc nd nd' h ha hd k t n hk
     · cases h
 
 /-! ## Small facts about lists -/
@@ -137,12 +163,12 @@ theorem initStore_param (f : CSem2.Func) {ρ : List Int} {i : Nat} {v : Int} (h 
   rw [initStore, List.getElem?_append_left (by simpa using hi)]
   simp [h]
 
-theorem initStore_local (f : CSem2.Func) {ρ : List Int} {i : Nat} (h1 : ρ.length ≤ i)
-    (h2 : i < ρ.length + f.locals.length) : (initStore f ρ)[i]? = some none := by
+/-- beyond the arguments no cell holds a value on entry -/
+theorem initStore_none (f : CSem2.Func) {ρ : List Int} {i : Nat} (h1 : ρ.length ≤ i) (v : Int) :
+    (initStore f ρ)[i]? ≠ some (some v) := by
   rw [initStore, List.getElem?_append_right (by simpa using h1)]
-  simp only [List.length_map]
   rw [List.getElem?_replicate]
-  simp; omega
+  split <;> simp
 
 theorem initStore_some (f : CSem2.Func) {ρ : List Int} {i : Nat} {v : Int}
     (h : (initStore f ρ)[i]? = some (some v)) : ρ[i]? = some v := by
@@ -178,7 +204,7 @@ theorem insert_ne (env : Env) {a b : Nat} (v : RVal) (h : a ≠ b) :
 /-- State of the prologue after the first `i` variables got their slot. -/
 structure PInv2 (T : Stat) (params : List CSem.Ty) (ρ : List Int) (s : Store) (i : Nat) (env : Env)
     (M : Mem) : Prop where
-  a : AInv T.M0 T.σ T.vtys s i env M
+  a : AInv T.M0 T.cnts T.σ T.vtys s i env M
   args : ∀ (k : Nat) (t : CSem.Ty) (v : Int), params[k]? = some t → ρ[k]? = some v →
     ∃ r, env[tmpName (2 * k + 1)]? = some r ∧ StoreVal t v r
 
@@ -187,10 +213,12 @@ variable (T : Stat) (params : List CSem.Ty) (ρ : List Int) (s : Store)
   (hσp : ∀ k, k < params.length → T.σ.getD k 0 = 2 * k + 2)
   (hvp : ∀ (k : Nat) (t : CSem.Ty), params[k]? = some t → T.vtys[k]? = some t)
   (hsp : ∀ (k : Nat) (v : Int), ρ[k]? = some v → s[k]? = some (some v))
-  (hlen : ρ.length = params.length)
-  (hsmall : stackLimit + 128 + 32 * T.vtys.length ≤ T.M0.sp ∧ T.M0.stack.size + T.vtys.length + 1 < 2 ^ 64)
+  (hlen : ρ.length = params.length) (hcl : T.cnts.length = T.vtys.length)
+  (hcp : ∀ k, k < params.length → T.cnts.getD k 1 = 1)
+  (hsmall : stackLimit + 128 + 32 * T.vtys.length + 8 * xcount T.cnts T.cnts.length ≤ T.M0.sp ∧
+    T.M0.stack.size + T.vtys.length + 1 < 2 ^ 64)
 
-include hσp hvp hsp hlen hsmall in
+include hσp hvp hsp hlen hcl hcp hsmall in
 /-- one parameter: `alloc`, `store` -/
 theorem run_spill2 (t : CSem.Ty) (i : Nat) (hti : params[i]? = some t) (pre post : List Item)
     (env : Env) (M : Mem) (hits : T.S.its = pre ++ spill t i ++ post)
@@ -200,13 +228,27 @@ theorem run_spill2 (t : CSem.Ty) (i : Nat) (hti : params[i]? = some t) (pre post
   have hi : i < params.length := lt_of_get hti
   obtain ⟨v, hv⟩ : ∃ v, ρ[i]? = some v := ⟨ρ[i]'(by omega), List.getElem?_eq_getElem (by omega)⟩
   have hiv : i < T.vtys.length := lt_of_get (hvp i t hti)
-  obtain ⟨base, M1, _, hxa, _, hnext⟩ := inv.a.alloc (t := t) (by omega) (by omega)
+  have hcl' : i < T.cnts.length := by rw [hcl]; exact hiv
+  have hci := hcp i hi
+  have hroom : stackLimit + 128 + 32 * (i + 1) + 8 * xcount T.cnts (i + 1) ≤ T.M0.sp := by
+    have := xcount_mono T.cnts (a := i + 1) (b := T.cnts.length) (by omega)
+    omega
+  obtain ⟨base, M1, _, hxa, _, hnext⟩ := (inv.a.forget i).alloc (t := t) hcl' (by omega) (by omega) hroom
+    (by omega) (by
+      intro e v' he
+      have he0 : e = 0 := by omega
+      subst he0
+      rw [ecell_zero, List.getElem?_set]
+      split
+      · split <;> simp
+      · exact absurd rfl ‹¬ i = i›)
+  rw [hci, Nat.mul_one] at hxa
   have hσi := hσp i hi
   have ha1 := hnext (env.insert (tmpName (2 * i + 2)) ⟨.l, base.toUInt64⟩)
     (fun k hk => by rw [hσp k (by omega)]; exact insert_ne env _ (by omega))
     (by rw [hσi]; simp) (hvp i t hti)
   obtain ⟨r0, hr0, hsv0⟩ := inv.args i t v hti hv
-  obtain ⟨a, M2, h1, hxs, _, ha2⟩ := ha1.store (k := i) (Nat.lt_succ_self _) (hvp i t hti)
+  obtain ⟨a, M2, h1, hxs, _, ha2⟩ := ha1.store hcl (k := i) (Nat.lt_succ_self _) (hvp i t hti)
     (v := v) (r := r0) hsv0
   rw [hσi] at h1
   have hs2 : (s.set i none).set i (some v) = s := by
@@ -229,7 +271,7 @@ theorem run_spill2 (t : CSem.Ty) (i : Nat) (hti : params[i]? = some t) (pre post
   · intro k t' v' ht' hv'
     rw [insert_ne env _ (by omega)]; exact inv.args k t' v' ht' hv'
 
-include hσp hvp hsp hlen hsmall in
+include hσp hvp hsp hlen hcl hcp hsmall in
 /-- all parameters -/
 theorem run_spills2 (ts : List CSem.Ty) : ∀ (i : Nat) (pre post : List Item) (env : Env) (M : Mem),
     (∀ (k : Nat) (t : CSem.Ty), ts[k]? = some t → params[i + k]? = some t) →
@@ -243,7 +285,7 @@ theorem run_spills2 (ts : List CSem.Ty) : ∀ (i : Nat) (pre post : List Item) (
   | cons t ts ih =>
     intro i pre post env M hty hits inv
     simp only [spills] at hits ⊢
-    obtain ⟨env1, M1, hr1, inv1⟩ := run_spill2 T params ρ s hσp hvp hsp hlen hsmall t i
+    obtain ⟨env1, M1, hr1, inv1⟩ := run_spill2 T params ρ s hσp hvp hsp hlen hcl hcp hsmall t i
       (by simpa using hty 0 t rfl) pre (spills ts (i + 1) ++ post) env M
       (by rw [hits]; simp only [List.append_assoc]) inv
     obtain ⟨n, env2, M2, hr2, inv2⟩ := ih (i + 1) (pre ++ spill t i) post env1 M1
@@ -254,63 +296,77 @@ theorem run_spills2 (ts : List CSem.Ty) : ∀ (i : Nat) (pre post : List Item) (
     · have : i + (t :: ts).length = i + 1 + ts.length := by simp; omega
       rw [this]; exact inv2
 
-include hsmall in
+include hcl hsmall in
 /-- the `alloc`s of the block-scope objects -/
 theorem run_allocs (hinc : ∀ a b, a < b → b < T.vtys.length → T.σ.getD a 0 < T.σ.getD b 0)
-    (tys : List CSem.Ty) : ∀ (slots : List Nat) (i : Nat) (pre post : List Item) (env : Env) (M : Mem),
+    (hxs : xcount T.cnts T.cnts.length ≤ 1000000)
+    (tys : List (CSem.Ty × Nat)) : ∀ (slots : List Nat) (i : Nat) (pre post : List Item) (env : Env) (M : Mem),
     slots.length = tys.length →
-    (∀ (k : Nat) (t : CSem.Ty), tys[k]? = some t → T.vtys[i + k]? = some t) →
+    (∀ (k : Nat) (t : CSem.Ty) (n : Nat), tys[k]? = some (t, n) →
+      T.vtys[i + k]? = some t ∧ T.cnts[i + k]? = some n ∧ 1 ≤ n) →
     (∀ (k : Nat), k < tys.length → T.σ.getD (i + k) 0 = slots.getD k 0) →
-    (∀ (k : Nat), k < tys.length → s[i + k]? = some none) →
-    T.S.its = pre ++ List.zipWith allocIns tys slots ++ post → AInv T.M0 T.σ T.vtys s i env M →
+    (∀ (j : Nat) (v : Int), i ≤ j → s[j]? ≠ some (some v)) →
+    T.S.its = pre ++ List.zipWith allocIns tys slots ++ post → AInv T.M0 T.cnts T.σ T.vtys s i env M →
     ∃ n env' M', T.Reach n (T.at env M pre) (T.at env' M' (pre ++ List.zipWith allocIns tys slots)) ∧
-      AInv T.M0 T.σ T.vtys s (i + tys.length) env' M' := by
+      AInv T.M0 T.cnts T.σ T.vtys s (i + tys.length) env' M' := by
   induction tys with
   | nil =>
     intro slots i pre post env M _ _ _ _ _ inv
     exact ⟨0, env, M, by simp [Stat.Reach, LowerMach.Reach], by simpa using inv⟩
-  | cons t tys ih =>
+  | cons d tys ih =>
     intro slots i pre post env M hl hty hsl hsn hits inv
+    obtain ⟨t, n⟩ := d
     cases slots with
     | nil => simp at hl
     | cons sl slots =>
       simp only [List.length_cons, Nat.add_right_cancel_iff] at hl
       simp only [List.zipWith_cons_cons] at hits ⊢
-      have hti : T.vtys[i]? = some t := by simpa using hty 0 t rfl
+      obtain ⟨hti, hci, hn1⟩ : T.vtys[i]? = some t ∧ T.cnts[i]? = some n ∧ 1 ≤ n := by
+        simpa using hty 0 t n rfl
       have hiv := lt_of_get hti
+      have hil : i < T.cnts.length := by rw [hcl]; exact hiv
+      have hcd : T.cnts.getD i 1 = n := by simp [List.getD, hci]
       have hσi : T.σ.getD i 0 = sl := by simpa using hsl 0 (by simp)
-      obtain ⟨base, M1, _, hxa, _, hnext⟩ := inv.alloc (t := t) (by omega) (by omega)
+      have hxsucc := xcount_succ T.cnts hil
+      have hmono := xcount_mono T.cnts (a := i + 1) (b := T.cnts.length) (by omega)
+      obtain ⟨base, M1, _, hxa, _, hnext⟩ := inv.alloc (t := t) hil (by omega) (by omega)
+        (by omega) (by omega) (by
+          intro e v he
+          apply hsn
+          unfold ecell xbase
+          split
+          · exact Nat.le_refl _
+          · omega)
+      rw [hcd] at hxa
       have ha1 := hnext (env.insert (tmpName sl) ⟨.l, base.toUInt64⟩)
         (fun k hk => by
           apply insert_ne
           have := hinc k i hk hiv
           rw [hσi] at this; omega)
         (by rw [hσi]; simp) hti
-      rw [set_same (by simpa using hsn 0 (by simp))] at ha1
-      have hits1 : T.S.its = pre ++ allocIns t sl :: (List.zipWith allocIns tys slots ++ post) := by
+      have hits1 : T.S.its = pre ++ allocIns (t, n) sl :: (List.zipWith allocIns tys slots ++ post) := by
         rw [hits]; simp
       have hr1 := run_res T (env := env) (M := M) hits1 (readVals_one (readVal_int _ _ _)) hxa
-      obtain ⟨n, env2, M2, hr2, inv2⟩ := ih slots (i + 1) (pre ++ [allocIns t sl]) post _ M1 hl
-        (fun k t' h => by have := hty (k + 1) t' (by simpa using h); rwa [Nat.add_assoc, Nat.add_comm 1 k])
+      obtain ⟨m, env2, M2, hr2, inv2⟩ := ih slots (i + 1) (pre ++ [allocIns (t, n) sl]) post _ M1 hl
+        (fun k t' n' h => by
+          have := hty (k + 1) t' n' (by simpa using h); rwa [Nat.add_assoc, Nat.add_comm 1 k])
         (fun k hk => by
           have := hsl (k + 1) (by simp; omega)
           rw [Nat.add_assoc, Nat.add_comm 1 k]; simpa using this)
-        (fun k hk => by
-          have := hsn (k + 1) (by simp; omega)
-          rw [Nat.add_assoc, Nat.add_comm 1 k]; exact this)
+        (fun j v hj => hsn j v (by omega))
         (by rw [hits]; simp) ha1
-      refine ⟨1 + n, env2, M2, ?_, ?_⟩
+      refine ⟨1 + m, env2, M2, ?_, ?_⟩
       · have := hr1.trans hr2
         simp only [List.append_assoc, List.singleton_append] at this
         exact this
-      · have : i + (t :: tys).length = i + 1 + tys.length := by simp; omega
+      · have : i + ((t, n) :: tys).length = i + 1 + tys.length := by simp; omega
         rw [this]; exact inv2
 
 end Prologue
 
 /-! ## The emitted function -/
 
-theorem allocs_allIns (tys : List CSem.Ty) (slots : List Nat) :
+theorem allocs_allIns (tys : List (CSem.Ty × Nat)) (slots : List Nat) :
     ∀ it ∈ List.zipWith allocIns tys slots, ∃ ins, it = .ins ins := by
   induction tys generalizing slots with
   | nil => simp
@@ -360,8 +416,9 @@ theorem sim_func (cs : Bool) (sid : Nat) (g : CSem2.Func) (ρ : List Int) (v : I
     (P : List CSem2.Func) (p : Prog) (ext : Qbe.Ext) (K d : Nat) (M0 : Mem)
     (hfuncs : ∀ fn g', lookup P fn = some g' →
       ∃ sid', p.funcs[fn]? = some (FuncInfo.of (Lower2.emitFunc cs sid' g')))
-    (hP : ∀ fn g', lookup P fn = some g' → CSem2.WT g' ∧ callsOK P g'.body = true ∧ g'.vtys.length ≤ K)
-    (hfrag : frag P g.body = true) (hK : g.vtys.length ≤ K)
+    (hP : ∀ fn g', lookup P fn = some g' →
+      CSem2.WT g' ∧ callsOK P g'.body = true ∧ g'.vtys.length + g'.extra ≤ K)
+    (hfrag : frag P g.cnts g.body = true) (hK : g.vtys.length + g.extra ≤ K)
     (hmem : MemInv M0) (hroom : Room K (d + 1) M0) (htop : M0.sp ≤ stackTop)
     (rest : List Qbe.Frame) (tr : Array String) (env0 : Env)
     (hargs : ∀ (k : Nat) (t : CSem.Ty) (v' : Int), g.params[k]? = some t → ρ[k]? = some v' →
@@ -374,9 +431,13 @@ theorem sim_func (cs : Bool) (sid : Nat) (g : CSem2.Func) (ρ : List Int) (v : I
       step p ext st = retCont p rest M0 tr (.scalar r) ∧ RetRep g.ret v r ∧
       InRange (g.ret.intTy cs) v := by
   have hlen := henv.1
-  simp only [CSem2.WT, CSem2.Func.wt, Bool.and_eq_true, beq_iff_eq] at hwt
-  obtain ⟨_, hwt⟩ := hwt
+  simp only [CSem2.WT, CSem2.Func.wt, Bool.and_eq_true, beq_iff_eq, decide_eq_true_eq] at hwt
+  obtain ⟨⟨⟨⟨_, hwt⟩, harrs⟩, hdecls⟩, hextra⟩ := hwt
   obtain ⟨hnd, hcount⟩ := wt_noDead _ _ _ _ _ _ _ hwt
+  have hcl : g.cnts.length = g.vtys.length := by simp [CSem2.Func.cnts, CSem2.Func.vtys]
+  have hcp : ∀ k, k < g.params.length → g.cnts.getD k 1 = 1 := by
+    intro k hk
+    simp [CSem2.Func.cnts, List.getD, List.getElem?_append_left, hk]
   have gd := funcstmt_good cs g.body "" "" (Lower2.bodyCtx sid g) rfl hnd
   obtain ⟨new, hslots, hnewlen, hnewrange, hallocs⟩ := gd.slots
   have hsorted := gd.sorted new hslots
@@ -394,7 +455,7 @@ theorem sim_func (cs : Bool) (sid : Nat) (g : CSem2.Func) (ρ : List Int) (v : I
   let S : Sit := ⟨cs, p, ext, x, M0, ft, o0, its, [], [], hblocks, hlidx,
     ⟨rfl, by intro i t v h; simp at h⟩⟩
   let σ : List Nat := paramSlots g.params.length ++ new
-  let T : Stat := ⟨S, σ, g.vtys, g.ret, rfl, P, M0, rfl, rfl, K, d, hK, hroom, hfuncs, hP⟩
+  let T : Stat := ⟨S, σ, g.vtys, g.ret, rfl, P, M0, rfl, rfl, g.cnts, K, d, hK, hroom, hfuncs, hP⟩
   have hσslots : (Lower2.bodyOut cs sid g).ctx.slots = σ := hslots
   -- facts about the slot map
   have hσp : ∀ k, k < g.params.length → T.σ.getD k 0 = 2 * k + 2 := by
@@ -431,10 +492,11 @@ theorem sim_func (cs : Bool) (sid : Nat) (g : CSem2.Func) (ρ : List Int) (v : I
   have hsp' : ∀ (k : Nat) (v : Int), ρ[k]? = some v → (initStore g ρ)[k]? = some (some v) :=
     fun k v h => initStore_param g h
   have hfr := hroom.frame
-  have hsmall' : stackLimit + 128 + 32 * T.vtys.length ≤ T.M0.sp ∧
+  have hsmall' : stackLimit + 128 + 32 * T.vtys.length + 8 * xcount T.cnts T.cnts.length ≤ T.M0.sp ∧
       T.M0.stack.size + T.vtys.length + 1 < 2 ^ 64 := by
-    have : T.vtys.length ≤ K := hK
-    show stackLimit + 128 + 32 * T.vtys.length ≤ M0.sp ∧ M0.stack.size + T.vtys.length + 1 < 2 ^ 64
+    have : g.vtys.length + xcount g.cnts g.cnts.length ≤ K := hK
+    show stackLimit + 128 + 32 * g.vtys.length + 8 * xcount g.cnts g.cnts.length ≤ M0.sp ∧
+      M0.stack.size + g.vtys.length + 1 < 2 ^ 64
     constructor <;> omega
   -- entering the function
   let M0' : Mem := { M0 with sp := M0.sp - frameCost }
@@ -465,7 +527,7 @@ theorem sim_func (cs : Bool) (sid : Nat) (g : CSem2.Func) (ρ : List Int) (v : I
     show Lower2.funcItems cs sid g = _
     simp [Lower2.funcItems]
   obtain ⟨n1, env1, M1, hreach1, hpinv1⟩ := run_spills2 T g.params ρ (initStore g ρ) hσp hvp hsp' hlen
-    hsmall' g.params 0 [] _ env0 M0' (fun k t h => by simpa using h) hits0 hpinv0
+    hcl hcp hsmall' g.params 0 [] _ env0 M0' (fun k t h => by simpa using h) hits0 hpinv0
   simp only [List.nil_append, Nat.zero_add] at hreach1 hpinv1
   -- the allocations of the locals
   have hits1 : T.S.its = spills g.params 0 ++ List.zipWith allocIns (declTys g.body) new ++
@@ -474,24 +536,40 @@ theorem sim_func (cs : Bool) (sid : Nat) (g : CSem2.Func) (ρ : List Int) (v : I
     rw [← this]
     show Lower2.funcItems cs sid g = _
     simp [Lower2.funcItems]
-  obtain ⟨n2, env2, M2, hreach2, hainv2⟩ := run_allocs T (initStore g ρ) hsmall' hinc (declTys g.body) new
+  obtain ⟨n2, env2, M2, hreach2, hainv2⟩ := run_allocs T (initStore g ρ) hcl hsmall' hinc hextra
+    (declTys g.body) new
     g.params.length (spills g.params 0) _ env1 M1 hnewlen
-    (fun k t h => wt_declTys _ _ _ _ _ _ _ hwt k t h)
+    (fun k t n h => wt_declTys _ _ g.cnts _ _ _ _ _ hwt harrs hdecls k t n h)
     (fun k hk => hσl k (by omega))
-    (fun k hk => initStore_local g (by omega) (by omega)) hits1 hpinv1.a
+    (fun j v hj => initStore_none g (by omega) v) hits1 hpinv1.a
   -- the invariant of the body
   have hall : g.params.length + (declTys g.body).length = T.vtys.length := by
     show _ = g.vtys.length; omega
   rw [hall] at hainv2
-  have hinv : SInv T.M0 T.S.cs T.σ T.vtys (initStore g ρ) env2 M2 := by
-    refine ⟨hainv2, by simp only [initStore, List.length_append, List.length_map, List.length_replicate, hlen]; exact hvl.symm, ?_⟩
-    intro i t v' ht hv'
-    have hρ := initStore_some g hv'
-    have hi : i < g.params.length := by rw [← hlen]; exact lt_of_get hρ
-    have ht' : g.params[i]? = some t := by
-      have : (g.params ++ g.locals)[i]? = some t := ht
-      rwa [List.getElem?_append_left hi] at this
-    exact henv.2 i t v' ht' hρ
+  have hinv : SInv T.M0 T.S.cs T.cnts T.σ T.vtys (initStore g ρ) env2 M2 := by
+    have hrange : ∀ (i : Nat) (t : CSem.Ty) (v' : Int), g.vtys[i]? = some t →
+        (initStore g ρ)[i]? = some (some v') → InRange (t.intTy cs) v' := by
+      intro i t v' ht hv'
+      have hρ := initStore_some g hv'
+      have hi : i < g.params.length := by rw [← hlen]; exact lt_of_get hρ
+      have ht' : g.params[i]? = some t := by
+        have : (g.params ++ g.locals)[i]? = some t := ht
+        rwa [List.getElem?_append_left hi] at this
+      exact henv.2 i t v' ht' hρ
+    refine ⟨hainv2, hcl, ?_, hrange, ?_⟩
+    · simp only [initStore, List.length_append, List.length_map, List.length_replicate, hlen]
+      show _ = g.vtys.length + g.extra
+      omega
+    · intro k e t v' ht he hv'
+      by_cases he0 : e = 0
+      · subst he0
+        rw [ecell_zero] at hv'
+        exact hrange k t v' ht hv'
+      · exfalso
+        refine initStore_none g (i := ecell k (xbase g.cnts k) e) ?_ v' hv'
+        unfold ecell xbase
+        rw [if_neg he0, hcl, hvl]
+        omega
   -- fall through into `body`
   have hitsL : T.S.its = (spills g.params 0 ++ List.zipWith allocIns (declTys g.body) new) ++
       .lbl none (bodyLabel sid) [] :: (Lower2.bodyOut cs sid g).items := hits1
